@@ -419,7 +419,7 @@ def run(chk: core.Check):
                              "hist-nest-by-reference", "hist-merge", "hist-reevaluated-after-growth"]
     chk.lean = core.LeanDriver("C01")
     rng = chk.rng
-    n = chk.pick(500, 12000)
+    n = chk.pick(500, 8000)
     max_m = chk.pick(6, 9)
     max_depth = chk.pick(3, 5)
     max_ops = chk.pick(10, 24)
@@ -433,7 +433,7 @@ def run(chk: core.Check):
         batch.append(expr)
     for expr in batch:
         handle(chk, expr)
-    for _ in range(chk.pick(120, 2500)):
+    for _ in range(chk.pick(120, 1500)):
         handle_history(chk, gen_history(rng, rng.randint(2, 4), rng.randint(6, chk.pick(16, 30)), chk.pick(5, 7)))
 
 
